@@ -165,6 +165,10 @@ func decodeDependency(ac *parse.AtomCursor, depth int) (PackageDependency, error
 		if err != nil {
 			return nil, err
 		}
+		if ac.Peek() > ' ' {
+			return nil, fmt.Errorf("unexpected characters after atom %s: %s",
+				dep.String(), ac.RemainingToken())
+		}
 		return dep, nil
 	}
 	return nil, fmt.Errorf("internal error: unexpected token type %d", toktype)
